@@ -210,13 +210,57 @@ def sec_nf(rep):
                     rep.add(ob_eval(f"{name}/cover/equality-paths-present", eq_paths >= 1, kind="cover", detail=f"{len(paths)} paths"))
     rep.sample({"nf": "ZM-VFNS, walls [0, 2.28, 24.2, 29756, inf]: on each of the explored paths of eko.nf_default(Q2) (real numpy searchsorted on a symbolic Q2) z3 proves path-condition => nf = 3 + #{s_q <= Q2}; Q2 == s_q exactly is its own path and counts the quark"})
 
+    # matching scales that are NOT ordered (a large kcThr lifts the charm scale above the bottom one):
+    # the count is still '#scales <= Q2' -- or the request is refused; never a silently different number
+    import itertools
+
+    from pvc.sym import Or as _Or
+
+    for ks in ((4.0, 1.0, 1.0), (1.0, 50.0, 1.0)):
+        rep.cases += 1
+        th, ob = _cards("ZM-VFNS", 3, mc=1.5, mb=4.5, mt=172.5, kcThr=ks[0], kbThr=ks[1], ktThr=ks[2])
+        name = f"C06/Combiner.__init__/nf/ZM-VFNS/unordered-matching-scales(kThr={ks})"
+        try:
+            r = runner.Runner(th, ob)
+            cfg = r.configs
+            scales = [float(w) for w in (th["mc"] ** 2 * ks[0] ** 2, th["mb"] ** 2 * ks[1] ** 2, th["mt"] ** 2 * ks[2] ** 2)]
+        except ValueError as e:
+            rep.add(ob_eval(name + "/refused-at-construction", True, detail=repr(e)))
+            continue
+
+        def build(cfg=cfg):
+            esf = H.FakeESF(sy.x, sy.Q2, H.obs_name("F2", "total"), cfg)
+            return cf.Combiner(esf).nf
+
+        try:
+            paths = explore(build, pre)
+        except Exception as e:  # noqa
+            rep.add(Ob(name, "post", UNDECIDED, "engine", 0, f"{type(e).__name__}: {e}"))
+            continue
+        for i, p in enumerate(paths):
+            if p.exc is not None:
+                rep.add(ob_eval(f"{name}/path{i}/refused with ValueError", isinstance(p.exc, ValueError), detail=repr(p.exc)))
+                continue
+            k = p.result - 3
+            alts = []
+            for S in itertools.combinations(range(3), k) if 0 <= k <= 3 else []:
+                alts.append(And(*[compare("<=", R.lift(scales[j]), sy.Q2) if j in S else compare("<", sy.Q2, R.lift(scales[j])) for j in range(3)]))
+            rep.add(ob_smt(f"{name}/path{i}/nf = 3 + #(scales <= Q2)", pre + p.pc, _Or(*alts) if alts else False))
+
     # the arguments handed to nf_default are exactly (esf.Q2, configs.threshold)
     rec = []
     cfg = H.make_configs(sy, scheme="ZM-VFNS")
     esf = H.FakeESF(sy.x, sy.Q2, H.obs_name("F2", "total"), cfg)
-    with rebind((cf, "nf_default", lambda q2, thr: rec.append((q2, thr)) or 4)):
-        c = cf.Combiner(esf)
-    rep.add(ob_eval("C06/Combiner.__init__/pre-at-call/nf_default(esf.Q2, configs.threshold)", len(rec) == 1 and rec[0][0] is sy.Q2 and rec[0][1] is cfg.managers["threshold"] and c.nf == 4, kind="pre-at-call"))
+
+    def build_rec():
+        with rebind((cf, "nf_default", lambda q2, thr: rec.append((q2, thr)) or 4)):
+            return cf.Combiner(esf).nf
+
+    try:
+        nfs = {p.result for p in explore(build_rec, pre) if p.exc is None}
+    except Exception:  # noqa
+        nfs = set()
+    rep.add(ob_eval("C06/Combiner.__init__/pre-at-call/nf_default(esf.Q2, configs.threshold)", len(rec) >= 1 and all(r_[0] is sy.Q2 and r_[1] is cfg.managers["threshold"] for r_ in rec) and nfs == {4}, kind="pre-at-call", detail=f"{len(rec)} calls, nf {sorted(nfs)}"))
 
 
 def sec_sv_nf(rep):
